@@ -403,6 +403,12 @@ func executeHostile(t *testing.T, prop string, seed uint64, p *HostilePlan) *cor
 	pk, msg, site := core.Guard(func() {
 		conn, err := ech.NewConn(context.Background(), sc, keyOptions(keys)...)
 		calls++
+		// whatever NewConn does with a hello that spans records, it decides
+		// having taken in a small multiple of the largest record - not as much
+		// as a length field announces
+		if took := sc.Pos(); took > newConnInputBound {
+			res.Fail(prop, "balloon", "NewConn takes in far more than a small multiple of the largest record before it returns", "%d bytes consumed from the client (bound %d = 8 records of the largest size), returned err=%v", took, newConnInputBound, err)
+		}
 		if err != nil {
 			outcome = "newconn-error"
 			return
@@ -491,6 +497,8 @@ func executeHostile(t *testing.T, prop string, seed uint64, p *HostilePlan) *cor
 	res.Sample = map[string]any{"kind": "hostile", "muts": p.Muts, "tail": len(p.Tail), "back": len(p.Back), "outcome": outcome}
 	return res
 }
+
+const newConnInputBound = 8 * (5 + 16384 + 2048)
 
 var hmutKinds = []string{"flip", "flip", "set", "trunc", "trunc-fix", "append", "reclen", "hslen", "u16at", "u16at", "dup-ext", "drop-ext", "swap-ext", "dup-ech", "ext-edge", "ext-edge", "field-edge", "ech-ids"}
 
@@ -598,6 +606,16 @@ func genC08(seed uint64, idx int) *Plan {
 		h.Base.Mutations = []Mutation{{Kind: "ech-empty-enc"}}
 		h.Base.Expect = "abort"
 		h.NoKeys = false
+		return &Plan{Kind: "hostile", Seed: seed, Hostile: h}
+	}
+	if idx%25 == 11 {
+		// a first record whose handshake header announces a message far longer than
+		// the record, followed by a flood of full-size handshake records
+		h.Muts = []HMut{{Kind: "hslen", A: []int{0xffffff, 1 << 20, 300000, 70000}[r.IntN(4)]}}
+		for n := 12 + r.IntN(36); n > 0; n-- {
+			h.Tail = append(h.Tail, HRec{Kind: "rec", Type: 22, Len: 16384})
+		}
+		h.Back, h.Chunks = nil, nil
 		return &Plan{Kind: "hostile", Seed: seed, Hostile: h}
 	}
 	if idx%25 == 13 && !b.NoECH && !b.Grease {
